@@ -342,15 +342,21 @@ func (m c13) evalSession(c *core.Ctx, frags []string, disableAt int, name string
 		}
 		if i >= disableAt && mentions {
 			// NOTE: an earlier fragment may have declared the name itself; the caller only passes names never declared
-			if err == nil || !strings.Contains(err.Error(), "unresolved reference \""+name+"\"") {
+			if err != nil && bc == nil && !strings.Contains(err.Error(), "unresolved reference \""+name+"\"") {
+				// statically rejected for another reason first (e.g. a variable whose declaring fragment was itself rejected)
+				c.Count("eval_fragment_rejected_other_reason")
+				continue
+			}
+			if err == nil || bc != nil || !strings.Contains(err.Error(), "unresolved reference \""+name+"\"") {
 				c.Violation("C13|eval-disabled-reference-accepted|"+name, "a fragment compiled after DisableBuiltin still resolves the builtin: "+fr, wit)
 				return
 			}
 			c.Count("eval_fragment_rejected_after_disable")
-			return
+			continue // the session goes on: a rejected fragment must not re-enable anything for the following ones
 		}
 		if err != nil && bc == nil {
-			return // unrelated compile error
+			c.Count("eval_fragment_other_compile_error")
+			continue // unrelated compile error (also a failed fragment the session has to survive)
 		}
 		if i >= disableAt && bc != nil {
 			// only code compiled for this fragment: Main and the constants added by it
@@ -460,6 +466,19 @@ func (m c13) Run(c *core.Ctx) {
 		{"global L\na := int(\"5\")", "b := int(\"6\") + a", "if a > 0 {\n  c := int(\"7\")\n  L(c)\n}\nb"},
 	}
 	evalNames := []string{"len", "string", "int"}
+	// the same sessions with failing fragments in between (parse error, unresolved name, a reference to the disabled
+	// builtin repeated as a "retry", a run-time error): the disabled builtin stays unreachable afterwards
+	for si := 0; si < 3; si++ {
+		name := evalNames[si]
+		for _, bad := range []string{"x := := 1", "undefinedName1 + 1", "zz := " + name + "(\"r\")", "[1][5]", "throw \"t\""} {
+			var fr []string
+			for _, f := range evalFrags[si] {
+				fr = append(fr, f, bad, "yy := "+name+"(\"retry\")")
+			}
+			evalFrags = append(evalFrags, fr)
+			evalNames = append(evalNames, name)
+		}
+	}
 	idx := 0
 	for si, frags := range evalFrags {
 		for at := 0; at <= len(frags); at++ {
